@@ -1,7 +1,7 @@
 #!/bin/bash
 # usage: engine/try_mutant.sh <patch.diff> <Cxx> [tier]   - apply a seeded change to /repo, run the check, undo.
 # (development aid for the seeded-change experiments; the evidence file of the property is restored afterwards)
-P=$1; ID=$2; TIER=${3:-quick}
+P=$(realpath $1); ID=$2; TIER=${3:-quick}
 cd /verif
 git -C /repo diff --quiet || { echo "/repo is dirty"; exit 3; }
 git -C /repo apply "$P" || { echo "patch does not apply"; exit 3; }
